@@ -3,9 +3,9 @@ package checks
 import (
 	"context"
 	"database/sql"
-	"os"
 	"errors"
 	"fmt"
+	"os"
 	"sort"
 	"strings"
 	"testing"
@@ -346,19 +346,21 @@ func runC09(t *testing.T, tier string) int {
 		samples = append(samples, "none")
 	}
 	cov := map[string]any{
-		"evaluations":         execs,
-		"distinct_nontrivial": points,
-		"rule":                "operation x index of every BEGIN / statement / COMMIT it issues x {driver error, context cancelled at that point, sql.ErrTxDone with the context cancelled}; each faulted run must report an error, leave the five tables byte-identical, wake no registered waiter, and a fault-free retry must reach the same tables as the fault-free run (modulo fresh ids, 50ms); distinct_nontrivial = distinct (operation, point, kind) triples",
-		"samples":             samples,
-		"operations":          len(cases),
+		"evaluations":                execs,
+		"distinct_nontrivial":        points,
+		"rule":                       "operation x index of every BEGIN / statement / COMMIT it issues x {driver error, context cancelled at that point, sql.ErrTxDone with the context cancelled}; each faulted run must report an error, leave the five tables byte-identical, wake no registered waiter, and a fault-free retry must reach the same tables as the fault-free run (modulo fresh ids, 50ms); distinct_nontrivial = distinct (operation, point, kind) triples",
+		"samples":                    samples,
+		"operations":                 len(cases),
 		"fault_points_per_operation": perOp,
-		"retries":             retries,
-		"phantom_wakeups":     woken,
-		"exhaustive":          true,
+		"retries":                    retries,
+		"phantom_wakeups":            woken,
+		"exhaustive":                 true,
 	}
 	ev := report.Evidence{PropertyID: "C09", Tier: tier, Seed: report.Seed(), Level: "fault_enumeration", Coverage: cov,
 		Assumptions: []string{"an injected COMMIT failure rolls the transaction back (models 'commit failed', not 'commit outcome unknown')", "a failed Pull may have committed its separate activity refresh of subscriptions.expires_at", "SQLite backend"}}
-	sort.Slice(sink.list, func(i, j int) bool { return strings.Join(sink.list[i].Trace, "/") < strings.Join(sink.list[j].Trace, "/") })
+	sort.Slice(sink.list, func(i, j int) bool {
+		return strings.Join(sink.list[i].Trace, "/") < strings.Join(sink.list[j].Trace, "/")
+	})
 	return report.Finish(ev, sink.list, t0)
 }
 
